@@ -193,3 +193,30 @@ func Harness_C13_protobuf_value_records() {
 	}
 	v.Reach("C13.proto.values.end")
 }
+
+// The tightest valid collection: a "unique" array of 0..3 one-byte integers (positive fixints 0..127)
+// that is the last thing in the packet, so the announced count equals the number of remaining bytes.
+// The count guard must not reject it: the metric decodes and carries exactly those values (as the
+// JSON, TL and Protobuf forms of the same metric do).
+func Harness_C13_msgpack_unique_tight() {
+	n := v.Choice(4)
+	buf := []byte{0x81, 0xa6, 'u', 'n', 'i', 'q', 'u', 'e', 0x90 | byte(n)}
+	var want []int64
+	for i := 0; i < n; i++ {
+		b := v.NondetU8()
+		v.Assume(b < 0x80)
+		buf = append(buf, b)
+		want = append(want, int64(b))
+	}
+	var m tlstatshouse.MetricBytes
+	_, err := msgpackUnmarshalStatshouseMetric(&m, buf)
+	v.Assert("C13.msgpack.unique_tight.decodes", err == nil)
+	if err == nil {
+		same := len(m.Unique) == n
+		for i := 0; same && i < n; i++ {
+			same = v.And(same, m.Unique[i] == want[i])
+		}
+		v.Assert("C13.msgpack.unique_tight.values", same)
+	}
+	v.Reach("C13.msgpack.unique_tight.end")
+}
